@@ -557,11 +557,14 @@ func (e *Engine) replay(fn *ssa.Function, ob *Obligation, dir string, overlay ma
 	var b strings.Builder
 	fmt.Fprintf(&b, "//go:build verif\n\npackage %s\n\nimport (\n", fn.Pkg.Pkg.Name())
 	imports := d.imports
+	if strings.Contains(ob.Name, "/assert/") {
+		imports["verifspec"] = verifspecPath
+	}
 	for n, p := range imports {
 		fmt.Fprintf(&b, "\t%s %q\n", n, p)
 	}
 	b.WriteString(")\n\nfunc TestVerifReplay(t *testing.T) {\n")
-	b.WriteString("\tdefer func() {\n\t\tif r := recover(); r != nil {\n\t\t\tfmt.Println(\"REPLAY-RESULT confirmed-panic:\", r)\n\t\t}\n\t}()\n")
+	b.WriteString("\tdefer func() {\n\t\tif r := recover(); r != nil {\n\t\t\tif s, ok := r.(string); ok && len(s) > 27 && s[:27] == \"verifspec: ghost assertion \" {\n\t\t\t\tfmt.Println(\"REPLAY-RESULT confirmed-assertion:\", s[27:])\n\t\t\t\treturn\n\t\t\t}\n\t\t\tfmt.Println(\"REPLAY-RESULT confirmed-panic:\", r)\n\t\t}\n\t}()\n")
 	for _, dcl := range decls {
 		b.WriteString("\t" + dcl + "\n")
 	}
@@ -570,6 +573,10 @@ func (e *Engine) replay(fn *ssa.Function, ob *Obligation, dir string, overlay ma
 		for _, cl := range c.clauses("requires") {
 			fmt.Fprintf(&b, "\tif !%s(%s) {\n\t\tfmt.Println(\"REPLAY-RESULT precondition-false: %s\")\n\t\treturn\n\t}\n", cl.GenName, all, strings.ReplaceAll(cl.Expr, `"`, `'`))
 		}
+	}
+	if strings.Contains(ob.Name, "/assert/") {
+		// ghost assertions are evaluated on this run
+		b.WriteString("\tverifspec.Replaying = true\n")
 	}
 	if nres > 0 {
 		fmt.Fprintf(&b, "\t%s := %s(%s%s)\n", strings.Join(rnames, ", "), callee, all, variadic)
